@@ -67,6 +67,27 @@ def _runs(draw):
 
 
 @st.composite
+def _resolution(draw):
+    """spans a few hundred ulps long, far from t = 0, with steps around (and below) the spacing of the time axis"""
+    method = draw(st.sampled_from(["RK4Solver", "EulerSolver", "RK45CKSolver", "RK5Solver", "RK8713MSolver", "SymplecticEulerSolver", "BackwardEuler", "RadauIIA5"]))
+    fam = M.family(M.get(method))
+    dtype = draw(st.sampled_from(["float32", "float64", "float32", "longdouble"]))
+    if fam in ("implicit_fixed", "implicit_embedded") and dtype == "longdouble":
+        dtype = "float64"
+    dt_ = M.DTYPES[dtype]
+    t0 = float(dt_(draw(st.sampled_from([8.0, -8.0, 1000.0, -3.5, 1e6, 1.0]))))
+    ulp = float(np.spacing(dt_(abs(t0))))
+    K = draw(st.sampled_from([20, 100, 400]))
+    direction = draw(st.sampled_from([1.0, -1.0]))
+    tf = float(dt_(t0 + direction * K * ulp))
+    c = draw(st.sampled_from([0.3, 0.45, 0.6, 1.0, 1.5, 3.3, 10.0]))
+    n = 2 if fam == "splitting" else 1
+    prob = dict(kind="lin", A=[[0.0, 1.0], [-1.0, 0.0]] if n == 2 else [[-0.5]], horizon=1.0)
+    return dict(part="runs", method=method, dtype=dtype, prob=prob, y0=[1.0, 0.0][:n] if n == 2 else [1.0], t0=t0, tf=tf, dt=c * ulp,
+                rtol=1e-3, atol=1e-3, dense=draw(st.booleans()), ops=[["integrate"]] + ([["integrate_to", 0.0]] if draw(st.booleans()) else []))
+
+
+@st.composite
 def _long(draw):
     method = draw(st.sampled_from(["EulerSolver", "HeunsSolver", "MidpointSolver", "SymplecticEulerSolver"]))
     nsteps = draw(st.integers(5001, 12000))
@@ -80,6 +101,7 @@ def _long(draw):
 def parts(tier):
     q = tier == "quick"
     return [Part("runs", strategy=_runs(), examples=1500 if q else 30000, timeout=300),
+            Part("resolution", strategy=_resolution(), examples=200 if q else 3000, timeout=300),
             Part("long", strategy=_long(), examples=8 if q else 64, timeout=600, shards=8 if q else 16)]
 
 
@@ -133,7 +155,7 @@ def check(case):
             # already within the end-time tolerance of the target: the call may or may not record a step - it is made, its
             # effect on later calls is what is checked
             dt_before = float(a.dt)
-            err = traj.run_integrate(a, dt(target), step_limit=n_before + 5)
+            err = traj.run_integrate(a, dt(target), step_limit=n_before + 140)   # at most ~128 ulps away: one step per ulp at worst
             if err is None and len(a) == n_before and abs(float(a.dt)) != abs(dt_before):
                 viols.append(V("noop_changed_dt", "{}: integrate({!r}) from {!r} ({} ulps away) recorded no step (the target counts as reached) but changed dt from {!r} to {!r}".format(
                     method, target, cur, op[1] if kind == "integrate_ulps" else "a few", dt_before, float(a.dt)), fam, **attrs))
@@ -147,20 +169,29 @@ def check(case):
             continue
         moving = dist > end_tol
         direction = 1.0 if target > cur else -1.0
+        count_verdict = False
         if moving:
             dt_now = abs(float(a.dt))
             if dt_now > dist:
                 dt_now = 0.5 * dist
+            count_verdict = fixed_explicit
             if fixed_explicit and dt_now > 0:
-                limit = n_before + min(int(math.ceil(dist / dt_now)) + 2, 50000)
+                # t + dt is rounded to the time grid of the dtype: each step advances by at least dt - ulp/2 (and by at least
+                # the smallest spacing in the range)
+                ulp_t = float(np.spacing(dt(max(abs(cur), abs(target)))))
+                eff = max(dt_now - 0.5 * ulp_t, 0.5 * ulp_t)
+                need = int(math.ceil(dist / eff)) + 2
+                limit = n_before + min(need, 50000)
+                if need > 50000:
+                    count_verdict = False      # the run is cut short by the harness' cost cap: "capped", no verdict on the step count
             else:
                 limit = n_before + (400 if fam in ("implicit_fixed", "implicit_embedded", "richardson") else COST_CAP)
         else:
             limit = n_before + 5
         err = traj.run_integrate(a, None if kind == "integrate" else dt(target), step_limit=limit)
         if isinstance(err, traj.StepCap):
-            if fixed_explicit:
-                viols.append(V("too_many_steps", "{}: integrating from {!r} to {!r} with dt={!r} recorded more than ceil(|span|/|dt|) + 2 = {} steps".format(
+            if moving and count_verdict:
+                viols.append(V("too_many_steps", "{}: integrating from {!r} to {!r} with dt={!r} recorded more than ceil(|span|/(|dt| - ulp/2)) + 2 = {} steps".format(
                     method, cur, target, dt_now, limit - n_before), fam, **attrs))
             else:
                 labels.append("capped")
@@ -172,6 +203,11 @@ def check(case):
                 break
             if isinstance(cause, de.exception_types.FailedToMeetTolerances):
                 labels.append("reported_failure")
+                break
+            if isinstance(cause, np.linalg.LinAlgError) and fam in ("implicit_fixed", "implicit_embedded", "richardson"):
+                # the stage system of an implicit method can be exactly singular (BackwardEuler on y' = y with h = 1:
+                # (1 - h) y1 = y0 has no solution) - a reported failure, not a successful integration
+                labels.append("reported_failure:singular_stage_system")
                 break
             viols.append(V("integrate_raised", "{}: integrate({}) from {!r} raised {!r} caused by {!r}".format(method, "" if kind == "integrate" else target, cur, err, cause),
                            fam + exc_sig(err), **attrs))
